@@ -6,6 +6,7 @@ package main
 import (
 	"bytes"
 	"encoding/base64"
+	"errors"
 	"fmt"
 	"io"
 	"net/http"
@@ -281,11 +282,13 @@ func (c *Ctx) genC02() {
 
 // near-miss variants of an expected value
 func nearMiss(v string) []string {
-	out := []string{v, "https://evil.example.org/x", strings.ToUpper(v), v + "/", v + "?x=1", v[:len(v)-1], v + "x", ""}
+	out := []string{v, "https://evil.example.org/x", strings.ToUpper(v), v + "/", v + "?x=1", v[:len(v)-1], v + "x", "",
+		// white space around the value: another string (a reader that trims is comparing something the message does not say)
+		" " + v, v + " ", "  " + v + "  ", v + "   "}
 	return out
 }
 
-var nmName = []string{"correct", "wrong", "upper", "slash", "query", "prefix", "extension", "empty"}
+var nmName = []string{"correct", "wrong", "upper", "slash", "query", "prefix", "extension", "empty", "lead-space", "trail-space", "both-spaces", "trail-spaces"}
 
 func (c *Ctx) genC03() {
 	now := ms(baseTime)
@@ -500,7 +503,16 @@ func (c *Ctx) genC03() {
 type artifactRT struct {
 	mk     func(resolveID string) (int, []byte, error)
 	lastID string
+	// the body reads to its end and then fails to close (a connection reset after the last byte): the reply was complete
+	closeErr bool
 }
+
+// artifactCloseFail: every resolver reply of the following cases fails to close
+var artifactCloseFail bool
+
+type closeFailBody struct{ io.Reader }
+
+func (closeFailBody) Close() error { return errors.New("close: connection reset by peer") }
 
 func (rt *artifactRT) RoundTrip(req *http.Request) (*http.Response, error) {
 	body, _ := io.ReadAll(req.Body)
@@ -516,7 +528,11 @@ func (rt *artifactRT) RoundTrip(req *http.Request) (*http.Response, error) {
 	if err != nil {
 		return nil, err
 	}
-	return &http.Response{StatusCode: status, Status: fmt.Sprintf("%d X", status), Body: io.NopCloser(bytes.NewReader(out)), Header: http.Header{}, Request: req}, nil
+	var rc io.ReadCloser = io.NopCloser(bytes.NewReader(out))
+	if rt.closeErr {
+		rc = closeFailBody{bytes.NewReader(out)}
+	}
+	return &http.Response{StatusCode: status, Status: fmt.Sprintf("%d X", status), Body: rc, Header: http.Header{}, Request: req}, nil
 }
 
 type artCase struct {
@@ -589,11 +605,12 @@ func (c *Ctx) runArtifact(k artCase, viaHTTP bool) {
 	var resolveID, irt string
 	impl := safely(func() string {
 		if viaHTTP {
-			rt := &artifactRT{mk: func(id string) (int, []byte, error) {
+			rt := &artifactRT{closeErr: artifactCloseFail || c.n%3 == 0, mk: func(id string) (int, []byte, error) {
 				b, i := c.soapEnvelope(k, id, lex)
 				irt = i
 				return 200, b, nil
 			}}
+			c.count("artifact-body-close", map[bool]string{true: "fails", false: "ok"}[rt.closeErr])
 			s.HTTPClient = &http.Client{Transport: rt}
 			req, _ := http.NewRequest("POST", k.cfg.Acs, nil)
 			req.Form = url.Values{"SAMLart": {"AAQAAMFbLinlXaCM+FIxiDwGOLAy2T71gbpO7ZhNzAgEANlB90ECfpNEVLg="}}
@@ -714,9 +731,18 @@ func (c *Ctx) genC04() {
 	for _, viaHTTP := range []bool{false, true} {
 		for _, mode := range []string{"match", "other", "empty", "prefix", "extension"} {
 			for _, asig := range []string{"none", "idp", "attacker"} {
-				for _, ids := range [][]string{{"id-req1"}, {}, {"id-other"}} {
-					for _, rirt := range []string{"id-req1", "id-nope", ""} {
+				for ii, ids := range [][]string{{"id-req1"}, {}, {"id-other"}} {
+					for ri, rirt := range []string{"id-req1", "id-nope", ""} {
 						cfg := baseCfg()
+						// the SP's switches (IdP-initiated login allowed, custom request-ID validator) concern the browser's requests:
+						// the back-channel answer must match the ArtifactResolve just issued whatever they say
+						switch (ii + ri) % 3 {
+						case 1:
+							cfg.AllowIDP = true
+						case 2:
+							cfg.ReqV = "t"
+						}
+						c.count("c04-artifact-sp-switches", fmt.Sprintf("allowIdP=%v reqV=%s", cfg.AllowIDP, cfg.ReqV))
 						r := baseResp(cfg, now)
 						r.IRT = rirt
 						r.Dest = c.pick(cfg.Acs, "", "https://idp.example.com/saml/artifact")
